@@ -710,6 +710,7 @@ func c11Framing(r *core.Run) {
 
 func runC11(r *core.Run) {
 	c11Framing(r)
+	c11NoWriteStorage(r)
 	c11Concurrent(r)
 	r.Rule("bounded-exhaustive: every file shape of the small family (distinct and equal chunks: de-duplicated storage < tree sum), every subset of the name universe as sharded directory at each fanout, plain directories, directories of builder-written files; oracle = independent recursive tree sum / content count over stored blocks (own dag-pb parser + gogo unixfs_pb); distinct = distinct cases")
 	var cases []c11Case
@@ -820,4 +821,88 @@ func thresholdNames(target int) []string {
 		out[len(out)-1] = out[len(out)-1] + fmt.Sprintf("%0*d", rest, 0)
 	}
 	return out
+}
+
+
+// c11NoWriteStorage: the builders run through a link system that has no
+// write storage (a caller that only wants the CID). Whatever they do then -
+// refuse, as this library does, or compute - a size and link they return must
+// be the ones the same build returns when it stores its blocks.
+func c11NoWriteStorage(r *core.Run) {
+	type res struct {
+		l   string
+		sz  uint64
+		err error
+	}
+	run := func(f func(ls *ipld.LinkSystem) (ipld.Link, uint64, error), ls *ipld.LinkSystem) (out res) {
+		if p, pv := core.Guard(func() {
+			l, sz, err := f(ls)
+			out = res{"", sz, err}
+			if l != nil {
+				out.l = l.String()
+			}
+		}); p {
+			out.err = fmt.Errorf("panic: %v", pv)
+		}
+		return
+	}
+	s0 := store.New()
+	leaves := gen.Leaves(s0, []string{"a", "b", "c"})
+	links, err := gen.PBLinks(leaves)
+	if err != nil {
+		r.InternalError("PBLinks: " + err.Error())
+		return
+	}
+	type job struct {
+		name string
+		f    func(ls *ipld.LinkSystem) (ipld.Link, uint64, error)
+	}
+	var jobs []job
+	for _, L := range []int{0, 3, 7, 13} {
+		L := L
+		jobs = append(jobs, job{fmt.Sprintf("BuildUnixFSFile(%d bytes, size-3)", L), func(ls *ipld.LinkSystem) (ipld.Link, uint64, error) {
+			data := fileCase{L: L, K: 3, Pattern: "distinct"}.content()
+			var l ipld.Link
+			var sz uint64
+			var err error
+			gen.WithWidth(2, func() { l, sz, err = builder.BuildUnixFSFile(bytes.NewReader(data), "size-3", ls) })
+			return l, sz, err
+		}})
+	}
+	jobs = append(jobs,
+		job{"BuildUnixFSDirectory(3 entries)", func(ls *ipld.LinkSystem) (ipld.Link, uint64, error) {
+			return builder.BuildUnixFSDirectory(links, ls)
+		}},
+		job{"BuildUnixFSDirectory(0 entries)", func(ls *ipld.LinkSystem) (ipld.Link, uint64, error) {
+			return builder.BuildUnixFSDirectory(nil, ls)
+		}},
+		job{"BuildUnixFSShardedDirectory(8, 3 entries)", func(ls *ipld.LinkSystem) (ipld.Link, uint64, error) {
+			return builder.BuildUnixFSShardedDirectory(8, 0x22, links, ls)
+		}},
+		job{"BuildUnixFSSymlink", func(ls *ipld.LinkSystem) (ipld.Link, uint64, error) {
+			return builder.BuildUnixFSSymlink("../target", ls)
+		}},
+	)
+	n := 0
+	for _, j := range jobs {
+		stored := run(j.f, store.New().LinkSystem())
+		bare := cidlink.DefaultLinkSystem() // no StorageWriteOpener, no StorageReadOpener
+		got := run(j.f, &bare)
+		n += 2
+		r.Evaluations.Add(2)
+		if stored.err != nil {
+			r.Violate("build-error no-write-storage-baseline", fmt.Sprintf("%s into a store: %v", j.name, stored.err), nil)
+			continue
+		}
+		if got.err != nil {
+			if got.l != "" {
+				r.Violate("link-with-error no-write-storage", fmt.Sprintf("%s without write storage: link %s together with error %v", j.name, got.l, got.err), nil)
+			}
+			continue // refusing is fine
+		}
+		if got.l != stored.l || got.sz != stored.sz {
+			r.Violate("size-differs no-write-storage", fmt.Sprintf("%s without write storage returns (%s, %d); the same build into a store returns (%s, %d)", j.name, got.l, got.sz, stored.l, stored.sz), nil)
+		}
+	}
+	r.Set("no_write_storage_builds", n)
 }
